@@ -125,10 +125,12 @@ def _mk(rows, variant, dt=np.int64):
     return RunLengthRaggedArray.from_array(np.array(rows, dtype=dt))
 
 
-def _cmp(acc, name, exp, f, close=False):
+def _cmp(acc, name, exp, f, close=False, may_refuse=False):
     o = attempt(lambda: dense(f()))
     acc.trans()
     acc.outcome((name, repr(o)))
+    if may_refuse and is_refused(o):
+        return
     if close and not is_refused(o):
         try:
             ok = np.allclose(np.array(o, dtype=float), np.array(exp, dtype=float), rtol=1e-12, atol=0) and np.shape(o) == np.shape(exp)
@@ -244,6 +246,11 @@ def check(case, acc):
             if isinstance(rs, tuple) and rs[0] == "lb":
                 acc.feature("row_mask_list_of_bools")
             _cmp(acc, f"rows[{type(rs).__name__ if not isinstance(rs, tuple) else rs[0]}]", _ref_rows(rows, rs), lambda: mk()[_sel(rs)])
+            if isinstance(rs, (int, slice)):
+                # the same row selection spelled as a 1-tuple and with a trailing Ellipsis
+                _cmp(acc, "rows[(sel,)]", _ref_rows(rows, rs), lambda: mk()[(_sel(rs),)])
+                if isinstance(rs, int) or not variant.startswith("2d"):       # (the matrix variant has no column ranges, and [rows, ...] is one)
+                    _cmp(acc, "rows[sel, ...]", _ref_rows(rows, rs), lambda: mk()[_sel(rs), ...])
     elif group == "elem":
         for i in range(n):
             for j in range(-lens[i], lens[i]):
@@ -253,6 +260,7 @@ def check(case, acc):
         for name in names:
             e = [getattr(np, name)(a).item() for a in arr]
             _cmp(acc, f"{name}(axis=-1)", e, lambda: getattr(mk(), name)(axis=-1), close=True)
+            _cmp(acc, f"{name}(axis=1)", e, lambda: getattr(mk(), name)(axis=1), close=True, may_refuse=True)   # same axis, other spelling
         if (not variant.startswith("2d")):
             for fn in ("sum", "mean", "max"):
                 e = [getattr(np, fn)(a).item() for a in arr]
@@ -295,6 +303,8 @@ def check(case, acc):
             if group == "colint":
                 for j in range(-mn, mn):
                     _cmp(acc, "rows,column-int", [r[j] for r in sel], lambda: mk()[rs, j])
+                    if isinstance(rs, slice) and rs == slice(None):
+                        _cmp(acc, "[..., column-int]", [r[j] for r in sel], lambda: mk()[..., j])
                 continue
             rng = [None] + list(range(-m - 1, m + 2))
             for st in rng:
